@@ -4,73 +4,112 @@
     [stratum_check : stratum -> result] is the extracted validator (ocaml/snram_driver.ml); a [stratum]
     is the skeleton of one [LOOP] of [souffle --show=initial-ram] (produced by harness/ramparse.py):
       st_scc / st_preamble / st_exit / st_limits / st_update   the frame
+      st_nullary                the relations whose copy statements have the form for arity 0
+                                ([IF (NOT ISEMPTY(src)) INSERT () INTO dst])
       st_clauses : list clause;  c_versions : list version      one version per QUERY of the clause
       v_scans (tuple id, relation, kind) / v_eqs / v_negs / v_ins_rel, v_ins_kind, v_ins_args
+      v_tests     [IF (NOT ISEMPTY(rel))] of the atoms without a scan (arity 0, or only unnamed arguments)
+      v_empties   [IF ISEMPTY(rel)]: negated delta of an atom of arity 0, guard of a head of arity 0,
+                  negated atom of arity 0, the test in front of [INSERT () INTO @new_H]
+      v_breaks    [IF (NOT ISEMPTY(@new_H)) BREAK]
       kind: KMain = R, KDelta = @delta_R, KNew = @new_R;  elem: EComp t i = t.i, EOther n = other expression
     Semantics (R, D, Nw : relation id -> tuple -> Prop are the main, @delta, @new relations):
       ev asg kenv x           value of element x; asg binds the tuple ids, kenv the other expressions
       sat_eqs asg kenv eqs    all equality filters hold
       scan_sat asg s          the tuple bound to s_tup s is in the relation selected by s_kind s
       neg_sat asg kenv n      [NOT (args) IN rel] holds
+      test_sat e / empt_sat e the relation selected by e_kind e is not empty / is empty
       typed_version arity asg v   scanned tuples and existence checks have the arity of their relation
       fset_of scc X (r, t)    := In r scc /\ X r t      (the SCC facts of a relation family)
       scc_scans scc v         the scans of SCC relations;  delta_negs v: the [NOT .. IN @delta_] filters
-      clause_facts scc c asg  the facts bound to the SCC atoms, in the order of the versions (version i
-                              has its delta on the i-th of them; = scan order unless the SIPS moved atoms)
+      scc_atoms scc v         the SCC atoms: the SCC scans, then the SCC relations of v_tests (no tuple id)
+      atom_sat asg a          scan_sat for an atom with a scan, else: its relation is not empty
+      delta_empties v         the [ISEMPTY(@delta_r)] filters
+      clause_facts scc c asg w  the facts bound to the SCC atoms, in the order of the versions (version i
+                              has its delta on the i-th of them; = scan order unless the SIPS moved atoms);
+                              an atom without a scan contributes (its relation, w p), p its position in scc_atoms
       head_fact asg kenv v    (v_ins_rel v, values of v_ins_args v)
       state = (stR, stD, stN); run_preamble, run_updates, exit_cond, limits_hit: the frame statements
+      new_nullary nul st      the @new relations of [nul] hold at most the empty tuple
       ram_loop s body st res  the emitted loop with loop body [body], started in [st], leaves [res]
       version_emits .. v h    the QUERY of version v inserts h;  body_emitted: union over all QUERYs
-      fire_clause c ts h      the clause without its SCC atoms: lower-stratum scans and negations,
-                              equalities, other filters ([others_sat], per clause), head
+      fire_clause c ts h      the clause without its SCC atoms: lower-stratum scans, negations and
+                              emptiness tests, equalities, other filters ([others_sat], per clause), head
     [version_ok], [New], [loop_run], [size_ge] are those of SemiNaiveAbs.v / Properties_C09.v. *)
 From Coq Require Import List NArith.
 From SV Require Import SemiNaiveAbs SemiNaiveRam.
 Import ListNotations.
 
 (** Version [i] of an accepted clause enumerates exactly the combinations of SCC facts that the
-    abstract scheme assigns to version [i]. *)
+    abstract scheme assigns to version [i].  An atom without a scan (arity 0, or only unnamed
+    arguments) stands for some tuple of its relation, supplied by [w]; its negated delta is
+    [ISEMPTY(@delta_r)], accepted only for the relations of [st_nullary], which hold at most the empty
+    tuple. *)
 Theorem C09_emitted_version_is_scheme_instance :
   forall (val : Type) (dflt : val) (s : stratum) (R D Nw : rel_interp val) (arity : N -> nat)
          (c : clause) (i : nat) (v : version) (asg : N -> tuple val) (kenv : N -> val),
     stratum_check s = OkResult -> In c (st_clauses s) -> nth_error (c_versions c) i = Some v ->
     typed_version arity asg v -> sat_eqs dflt asg kenv (v_eqs v) ->
     (forall r t, In r (st_scc s) -> D r t -> R r t) ->
-    i < length (clause_facts (st_scc s) c asg) /\
-    ((Forall (scan_sat R D Nw asg) (scc_scans (st_scc s) v) /\
-      Forall (neg_sat dflt R D Nw asg kenv) (delta_negs v)) <->
-     version_ok (fset_of (st_scc s) R) (fset_of (st_scc s) D) i (clause_facts (st_scc s) c asg)).
+    (forall r t, In r (st_nullary s) -> R r t -> t = []) ->
+    (forall w, i < length (clause_facts (st_scc s) c asg w)) /\
+    ((Forall (atom_sat R D Nw asg) (scc_atoms (st_scc s) v) /\
+      Forall (neg_sat dflt R D Nw asg kenv) (delta_negs v) /\
+      Forall (empt_sat R D Nw) (delta_empties v)) <->
+     exists w, version_ok (fset_of (st_scc s) R) (fset_of (st_scc s) D) i (clause_facts (st_scc s) c asg w)).
 Proof. exact stratum_version_sound. Qed.
 Print Assumptions C09_emitted_version_is_scheme_instance.
 
+(** The same for a version whose SCC atoms all have scans: the statement about the scans alone; the
+    facts do not depend on [w]. *)
+Theorem C09_emitted_version_is_scheme_instance_scans :
+  forall (val : Type) (dflt : val) (s : stratum) (R D Nw : rel_interp val) (arity : N -> nat)
+         (c : clause) (i : nat) (v : version) (asg : N -> tuple val) (kenv : N -> val)
+         (w : nat -> tuple val),
+    stratum_check s = OkResult -> In c (st_clauses s) -> nth_error (c_versions c) i = Some v ->
+    scc_tests (st_scc s) v = [] ->
+    typed_version arity asg v -> sat_eqs dflt asg kenv (v_eqs v) ->
+    (forall r t, In r (st_scc s) -> D r t -> R r t) ->
+    i < length (clause_facts (st_scc s) c asg w) /\
+    ((Forall (scan_sat R D Nw asg) (scc_scans (st_scc s) v) /\
+      Forall (neg_sat dflt R D Nw asg kenv) (delta_negs v)) <->
+     version_ok (fset_of (st_scc s) R) (fset_of (st_scc s) D) i (clause_facts (st_scc s) c asg w)).
+Proof. exact stratum_version_sound_scans. Qed.
+Print Assumptions C09_emitted_version_is_scheme_instance_scans.
+
 (** Every version inserts into @new of an SCC relation, and only facts that are not in the main
-    relation. *)
+    relation ([NOT (args) IN H], or [ISEMPTY(H)] for a head without arguments). *)
 Theorem C09_emitted_head_guard :
   forall (val : Type) (dflt : val) (s : stratum) (R D Nw : rel_interp val)
          (c : clause) (i : nat) (v : version),
     stratum_check s = OkResult -> In c (st_clauses s) -> nth_error (c_versions c) i = Some v ->
     v_ins_kind v = KNew /\ In (v_ins_rel v) (st_scc s) /\
     forall asg kenv, Forall (neg_sat dflt R D Nw asg kenv) (v_negs v) ->
+                     Forall (empt_sat R D Nw) (v_empties v) ->
                      ~ fset_of (st_scc s) R (head_fact dflt asg kenv v).
 Proof. exact stratum_head_guard_sound. Qed.
 Print Assumptions C09_emitted_head_guard.
 
 (** The frame of an accepted stratum is the loop of SemiNaiveAbs: preamble, limit exits, one pass
     (emptiness exit and table updates) against the abstract step, and the whole loop against
-    [loop_run] for any loop body that computes [New]. *)
+    [loop_run] for any loop body that computes [New].  The relations with the arity-0 copy
+    statements are assumed to hold at most the empty tuple. *)
 Theorem C09_emitted_frame_is_loop :
   forall (val rule : Type) (rules : list rule) (arity : rule -> nat)
          (fire : rule -> list (fact val) -> fact val -> Prop) (s : stratum),
     stratum_check s = OkResult ->
     let scc := st_scc s in
+    let nul := st_nullary s in
     let NewF := New rules arity fire in
     (forall st : state val, (forall r t, In r scc -> ~ stD st r t) ->
-       forall f, fset_of scc (stD (run_preamble (st_preamble s) st)) f <-> fset_of scc (stR st) f) /\
+       (forall r t, In r nul -> stR st r t -> t = []) ->
+       forall f, fset_of scc (stD (run_preamble nul (st_preamble s) st)) f <-> fset_of scc (stR st) f) /\
     (forall st : state val, limits_hit (st_limits s) st <-> limit_hit_of val s (fset_of scc (stR st))) /\
     (forall st : state val,
        let Rf := fset_of scc (stR st) in
        let Df := fset_of scc (stD st) in
-       let st' := run_updates (st_update s) st in
+       let st' := run_updates nul (st_update s) st in
+       new_nullary nul st ->
        (forall f, fset_of scc (stN st) f <-> NewF Rf Df f) ->
        (exit_cond (st_exit s) st <-> (forall h, ~ NewF Rf Df h)) /\
        (forall f, fset_of scc (stR st') f <-> (Rf f \/ NewF Rf Df f)) /\
@@ -80,8 +119,9 @@ Theorem C09_emitted_frame_is_loop :
     (forall (body : rel_interp val -> rel_interp val -> rel_interp val) (Good : state val -> Prop),
        (forall st, Good st -> forall f,
           fset_of scc (body (stR st) (stD st)) f <-> NewF (fset_of scc (stR st)) (fset_of scc (stD st)) f) ->
+       (forall st, Good st -> forall r t, In r nul -> body (stR st) (stD st) r t -> t = []) ->
        (forall st, Good st -> (forall f, ~ fset_of scc (stN st) f) ->
-          Good (run_updates (st_update s) (run_body val body st))) ->
+          Good (run_updates nul (st_update s) (run_body val body st))) ->
        forall st res, ram_loop val s body st res -> Good st -> (forall f, ~ fset_of scc (stN st) f) ->
        exists res', loop_run rules arity fire (limit_hit_of val s)
                              (fset_of scc (stR st)) (fset_of scc (stD st)) res' /\
@@ -90,7 +130,9 @@ Proof. exact frame_ok_sound. Qed.
 Print Assumptions C09_emitted_frame_is_loop.
 
 (** The three statements composed.  One QUERY: version [i] of clause [c] inserts [h] iff [h] is new
-    and some combination accepted by the abstract version [i] fires the clause. *)
+    and some combination accepted by the abstract version [i] fires the clause.  ([empties_nullary]:
+    the relations under [ISEMPTY(@delta_r)] have arity 0; the @new relation tested in front of
+    [INSERT () INTO @new_H] is empty.) *)
 Theorem C09_emitted_version_emits :
   forall (val : Type) (dflt : val) (scc : list N) (arity : N -> nat)
          (kv : (N -> tuple val) -> N -> val) (others_sat : N -> (N -> tuple val) -> Prop)
@@ -99,7 +141,9 @@ Theorem C09_emitted_version_emits :
     (forall r t, In r scc -> D r t -> R r t) ->
     (forall r t, ~ In r scc -> (R r t <-> L r t)) ->
     forall (c : clause) (i : nat) (v : version) (h : fact val),
-      clause_check scc c = OkResult -> nth_error (c_versions c) i = Some v -> static_typed arity c ->
+      clause_check scc c = OkResult -> nth_error (c_versions c) i = Some v ->
+      static_typed arity c -> empties_nullary arity c ->
+      (forall e, In e (v_empties v) -> e_kind e = KNew -> forall t, ~ Nw (e_rel e) t) ->
       (version_emits dflt kv others_sat R D Nw (c_id c) v h <->
        ~ fset_of scc R h /\
        exists ts, version_ok (fset_of scc R) (fset_of scc D) i ts /\
@@ -107,22 +151,40 @@ Theorem C09_emitted_version_emits :
 Proof. exact version_emits_iff. Qed.
 Print Assumptions C09_emitted_version_emits.
 
+(** The test [IF ISEMPTY(@new_H)] in front of [INSERT () INTO @new_H] (head of arity 0) does not change
+    what @new holds after the QUERY: run on the @new relations [Nw] it finds, the QUERY leaves the
+    same tuples in @new as run on empty @new relations (as [body_emitted] takes it). *)
+Theorem C09_emitted_self_test_redundant :
+  forall (val : Type) (dflt : val) (scc : list N)
+         (kv : (N -> tuple val) -> N -> val) (others_sat : N -> (N -> tuple val) -> Prop)
+         (R D Nw : rel_interp val) (c : clause) (i : nat) (v : version),
+    clause_check scc c = OkResult -> nth_error (c_versions c) i = Some v ->
+    (forall t, Nw (v_ins_rel v) t -> t = []) ->
+    (exists t, Nw (v_ins_rel v) t) \/ (forall t, ~ Nw (v_ins_rel v) t) ->
+    forall f, (Nw (fst f) (snd f) \/ version_emits dflt kv others_sat R D Nw (c_id c) v f) <->
+              (Nw (fst f) (snd f) \/ version_emits dflt kv others_sat R D (fun _ _ => False) (c_id c) v f).
+Proof. exact self_test_redundant. Qed.
+Print Assumptions C09_emitted_self_test_redundant.
+
 (** The whole stratum: preamble and loop of an accepted skeleton, with the QUERYs as loop body, run
     as [loop_run] with the clauses as rules, from the main relations [R0] left by the non-recursive
-    rules.  (So C09_step_eq_naive, C09_seminaive_complete, C23_* ... speak about the emitted RAM;
-    their premise on rules without SCC atoms holds by [emitted_arity_pos].) *)
+    rules; heads and SCC atoms of arity 0 included.  (So C09_step_eq_naive, C09_seminaive_complete,
+    C23_* ... speak about the emitted RAM; their premise on rules without SCC atoms holds by
+    [emitted_arity_pos].) *)
 Theorem C09_emitted_stratum_is_loop_run :
   forall (val : Type) (dflt : val) (arity : N -> nat)
          (kv : (N -> tuple val) -> N -> val) (others_sat : N -> (N -> tuple val) -> Prop)
          (L : rel_interp val) (s : stratum),
     stratum_check s = OkResult ->
     (forall c, In c (st_clauses s) -> static_typed arity c) ->
+    (forall r, In r (st_nullary s) -> arity r = 0) ->
     forall (st : state val) (res : rel_interp val),
       (forall r t, stR st r t -> length t = arity r) ->
       (forall r t, ~ In r (st_scc s) -> (stR st r t <-> L r t)) ->
       (forall r t, In r (st_scc s) -> ~ stD st r t) ->
       (forall r t, In r (st_scc s) -> ~ stN st r t) ->
-      ram_loop val s (body_emitted val dflt kv others_sat s) (run_preamble (st_preamble s) st) res ->
+      ram_loop val s (body_emitted val dflt kv others_sat s)
+               (run_preamble (st_nullary s) (st_preamble s) st) res ->
       exists res' : fset (fact val),
         loop_run (st_clauses s) clause_arity (fire_clause dflt (st_scc s) arity kv others_sat L)
                  (limit_hit_of val s) (fset_of (st_scc s) (stR st)) (fset_of (st_scc s) (stR st)) res' /\
